@@ -1066,7 +1066,18 @@ impl<Front: SocketHandler> ConnectionH1<Front> {
                     stream.back.detached.status_line,
                     kawa::StatusLine::Response { code, .. } if (100..200).contains(&code)
                 );
-                if stream_context.keep_alive_backend && stream.back.is_terminated() && !interim {
+                // (a request that was not completely written to this backend —
+                // the client reset its stream, or the backend answered on the head,
+                // before the whole body was sent — leaves the backend waiting for
+                // the rest of that body: the next request attached to the
+                // connection would be read as that body. The connection is only
+                // reusable when the request side is finished as well.)
+                let request_sent = stream.front.is_terminated() && stream.front.is_completed();
+                if stream_context.keep_alive_backend
+                    && stream.back.is_terminated()
+                    && !interim
+                    && request_sent
+                {
                     *status = BackendStatus::KeepAlive;
                 } else {
                     self.force_disconnect();
